@@ -34,6 +34,9 @@ VICTIMS = {
     'import':   _victim(['IMPORT_KW', 'IDENT', 'DOT', 'L_BRACE', 'IDENT', 'COMMA', 'U_IDENT', 'R_BRACE']),
     'fn-use':   _victim(['FN_KW', 'IDENT', 'L_PAREN', 'R_PAREN', 'L_BRACE', 'USE_KW', 'IDENT', 'L_ARROW', 'IDENT', 'IDENT', 'R_BRACE']),
 }
+# closers other than braces inside a body: a tuple pattern and a bit array (their closing `)` / `>>` may be deleted or replaced)
+VICTIMS['fn-let-tuple'] = _victim(['FN_KW', 'IDENT', 'L_PAREN', 'IDENT', 'R_PAREN', 'L_BRACE', 'LET_KW', 'HASH', 'L_PAREN', 'IDENT', 'COMMA', 'IDENT', 'R_PAREN', 'EQ', 'IDENT', 'IDENT', 'R_BRACE'])
+VICTIMS['fn-bitarray'] = _victim(['FN_KW', 'IDENT', 'L_PAREN', 'R_PAREN', 'L_BRACE', 'LT_LT', 'INTEGER', 'GT_GT', 'R_BRACE'])
 # inner braces: victims whose body contains a nested brace pair are damaged only outside / inside consistently (braces stay balanced)
 VICTIMS['fn-case'] = (['FN_KW', 'IDENT', 'L_PAREN', 'IDENT', 'R_PAREN', 'L_BRACE', 'CASE_KW', 'IDENT', 'L_BRACE', 'U_IDENT', 'L_PAREN', 'IDENT', 'R_PAREN',
                        'R_ARROW', 'IDENT', 'DISCARD_IDENT', 'R_ARROW', 'INTEGER', 'R_BRACE', 'R_BRACE'], 5, 19)
@@ -44,7 +47,8 @@ BANNED = ['L_BRACE', 'R_BRACE', 'L_PAREN', 'L_SQUARE', 'LT_LT', 'HASH']
 
 T1 = [('fn-expr', 'const', 'fn'), ('fn-let', 'import', 'pubfn'), ('fn-call', 'import', 'const'), ('fn-binop', 'import', 'type'),
       ('type', 'const', 'fn'), ('type-labelled', 'import', 'import'), ('import', 'import', 'fn'), ('fn-use', 'import', 'attrfn'),
-      ('fn-case', 'import', 'pubtype'), ('fn-case', 'const', 'import')]
+      ('fn-case', 'import', 'pubtype'), ('fn-case', 'const', 'import'), ('fn-let-tuple', 'import', 'fn'), ('fn-let-tuple', 'const', 'pubtype'),
+      ('fn-bitarray', 'import', 'fn'), ('fn-bitarray', 'const', 'attrfn')]
 T2 = [(v, a, b) for v in VICTIMS for (a, b) in [('const', 'fn'), ('fn', 'const'), ('import', 'pubfn'), ('type', 'alias'), ('pubtype', 'attrfn'),
                                                ('alias', 'import'), ('pubconst', 'type')]]
 
